@@ -169,6 +169,8 @@ pub fn run_case(case: &OwnerCase) -> Result<OStats, String> {
             (fs.clone(), barrier.clone(), log.clone(), model.clone(), errors.clone(), case.clone(), clock.clone(), opens_ok.clone(), closing.clone(), locked_at.clone());
         let fault_ctl = watch.ctl.clone();
         handles.push(std::thread::Builder::new().name(format!("owner-{t}")).spawn(move || {
+            // directives may hold this thread between opening and locking the LOCK file
+            crate::sched::set_role(t as i32);
             let mut db: Option<DB> = None;
             let mut wrote = 0u64;
             // what this thread wrote and had acknowledged during its current ownership
@@ -501,7 +503,15 @@ fn strategy() -> BoxedStrategy<OwnerCase> {
             ];
             let hold = (select(vec!["compaction.step", "compaction.step", "flush.before_build", "manifest.before_append"]), 0u32..8, 3u32..16, select(vec![0u32, 0, 3, 6]))
                 .prop_map(|(p, nth, max_hold_ms, every)| crate::sched::Directive { role: -1, point: p.to_string(), nth, max_hold_ms, linger_ms: 0, every });
-            let holds = prop_oneof![Just(vec![]), prop::collection::vec(hold, 1..5)];
+            // a thread held for a few milliseconds between opening the LOCK file and locking it (while
+            // others destroy and re-create the database)
+            let lock_hold = (0..n as i32, 0u32..8, 2u32..12)
+                .prop_map(|(role, nth, max_hold_ms)| crate::sched::Directive { role, point: "lock.after_open".to_string(), nth, max_hold_ms, linger_ms: 0, every: 0 });
+            let holds = prop_oneof![
+                3 => Just(vec![]),
+                3 => prop::collection::vec(hold, 1..5),
+                2 => prop::collection::vec(lock_hold.clone(), 1..4),
+            ];
             let delay = select(vec![0u32, 0, 0, 0, 0, 100, 300, 1000]);
             (prop::collection::vec(prop::collection::vec(op, n), 2..9), Just(n), (any::<bool>(), holds, delay, prop::bool::weighted(0.4)), 0u8..5, 0usize..6)
         })
